@@ -17,7 +17,7 @@ CLAIMS = {
              "every parked-set removal, who-may-park + requeue guard, single-constructor/single-forward delivery pipeline down to the one "
              "mailbox.push_back, order-preserving operations only, spawner always notified, await registration before a not-finished answer, every "
              "process source of a select asked about, every Action arm of the worker forwarding its Event (no worker-local short cut) and every "
-             "registered awaiter told. "
+             "registered awaiter told; the expiry tests that wake a parked select (elapsed or deadline form) agree in direction and strictness. "
              "They hold for every path of the code, which no test schedule can enumerate; liveness under real interleavings is not decided.",
         design="§3 C04", technique="static analysis: MIR must-pass-through / pairing / who-may-call rules (rustc_private driver + rule evaluator)"),
     "C01": dict(
@@ -39,14 +39,14 @@ CLAIMS = {
     "C05": dict(
         text="Decides structural clauses of select: who may remove from a mailbox and under which verdict (removed index tied to the examined/held "
              "message), the filter result reaching only the nil test, the awaited process's own error being propagated, latest-answer-replaces in "
-             "the await bookkeeping, forward source scan with first-ready-wins, sibling agreement of the three timeout-expiry tests and a single "
+             "the await bookkeeping, forward source scan with first-ready-wins, sibling agreement of the timeout-expiry tests (found by what they compare: elapsed or deadline form) and a single "
              "start of the waiting period. Priority under real arrival histories and clocks is not decided.",
         design="§3 C05", technique="static analysis: MIR guarded reachability, value-source slices, no-flow (taint) and sibling comparison"),
     "C07": dict(
         text="Decides structural clauses: Jump/JumpIf are built only by the audited InstructionBuilder formula from in-range targets (provenance "
              "slice, followed through callers); the index-carrying instruction/type fields, derived from the executor and the ADTs, are followed by "
              "every mark/sweep/merge walker through the right table; hot/cold dispatch tables agree; remap tables are order-preserving, fresh per "
-             "merge and fed only by register_*/import_* (tables identified by what feeds them, not by name); id-kind discipline; the match-failure "
+             "merge, fed only by register_*/import_* (tables identified by what feeds them, not by name) and complete before they are consulted; id-kind discipline; the match-failure "
              "nil fill is unconditional; and the stack-discipline clause for the part of the code generator whose effect is not data-dependent: "
              "an emission-effect abstract interpretation of every emitting function proves one operand-stack height at every emitted join on every "
              "generator path and freezes the net-effect contracts of 11 generator functions (pattern code, compile_match, literals, accessors, "
@@ -56,20 +56,20 @@ CLAIMS = {
         text="Decides: remap completeness of every id-carrying field in tree-shake and merge, order-preserving fresh remap tables, derived and "
              "attribute-symmetric serde for every ADT reachable from Bytecode, the capture-injection prologue shape, structural re-emission of "
              "cached module values, heap indices scoped to the executor that issued them (byte table fresh per module load, stored with its value, "
-             "looked up only through the table handed over with the value), complete type tables at module load time. Equality of results across "
+             "looked up only through the table handed over with the value), complete type tables at module load time, remap tables complete before use, module cache and program cloned and committed together. Equality of results across "
              "the four packaging routes is not decided.",
         design="§3 C10", technique="static analysis: HIR sibling agreement, derive/attribute census, MIR value-source slices"),
     "C09": dict(
         text="Decides shape conditions of the assignability/overlap relation: quantifier polarity per arm and union mode, callable variance, the "
              "121-pair variant coverage matrix (no same-kind pair falls to `_ => false`), the direction of the narrowing fallbacks (never/empty only "
              "under the right test in the right argument order), and that the relation is closed (no unreviewed helper, fresh coinductive state per "
-             "query). The coinductive relation's soundness over all closed contractive types is NOT decided. Polarity is decided semantically on MIR (forced call results + constant propagation), so iterator, early-return, flag and settles-style loops are classified alike; union construction is structural (never consults the relation); a runtime type check is elided only under an is_compatible judgment.",
+             "query). The coinductive relation's soundness over all closed contractive types is NOT decided. Polarity is decided semantically on MIR (forced call results + constant propagation), so iterator, early-return, flag and settles-style loops are classified alike; union construction is structural (never consults the relation); a runtime type check is elided only under an is_compatible judgment; the branch-complement state machine keeps original type and provenance fixed and only intersects on a re-check; whole-variable and per-field narrowings are consulted only on the scopes of their own binding.",
         design="§3 C09", technique="static analysis: HIR pattern-matrix evaluation over variant pairs, quantifier/variance shape checks, MIR guarded reachability; semantic quantifier-polarity analysis on MIR"),
     "C11": dict(
         text="Decides the ordering/commit clauses behind 'a rejected line leaves the session exactly as it was' and the alignment plumbing: session "
              "fields and the persistent process are touched only on the success edge of the compile `?`, compaction precedes compilation and "
              "re-indexes bindings and locals by one permutation, the compiler mutates clones, resume feeds the previous result, persistent "
-             "top-level locals survive frame exit. Per-line value equivalence with a single program is NOT decided. Also: compaction is unconditional once a REPL process exists; per-line result delivery never reaches resource cleanup.",
+             "top-level locals survive frame exit. Per-line value equivalence with a single program is NOT decided. Also: compaction is unconditional once a REPL process exists; per-line result delivery never reaches resource cleanup; the bindings a line reports are computed from the ones it was given; the executor replaces its derived type tables at every program update.",
         design="§3 C11", technique="static analysis: MIR dominance on the Continue edge of `?`, argument provenance and value-source slices"),
     "C06": dict(
         text="Root-write audit over the resolved MIR of the whole workspace: every mutation of a GC root (derived from the Process/SelectState ADTs) "
@@ -91,7 +91,7 @@ CLAIMS = {
              "recognised; the remainder is held to reviewed per-(function, kind) ceilings so any new panic- or truncation-capable construct is "
              "reported; iterated ranges are loop-bound sinks (hang clause). Plus the MAX_BINARY_SIZE choke point, encapsulation of the rope "
              "representation and the rope shape invariants the reviewed bounds rest on (Tiled over a non-empty unit, Slice in bounds, Concat "
-             "length). Agreement with a reference model "
+             "length), and a recursion census (no new recursion on the builtins' paths; Concat spines are walked iteratively). Agreement with a reference model "
              "(value level) is NOT decided.",
         design="§3 C12", technique="static analysis: interval abstract interpretation over MIR + sink census with reviewed residual table"),
     "C13": dict(
@@ -105,7 +105,7 @@ CLAIMS = {
              "close_resource has one caller, is followed by removal and runs only for completed processes; resource_id() agrees with every effect "
              "variant's fields; created handles are top-level completion values; transfer precedes forwarding on deliver and spawn with a recursive "
              "walker; cleanup closes exactly what the ownership map assigns to the finished process at cleanup time; every send/spawn/completion is "
-             "routed through the environment (the only place ownership moves and cleanup is triggered). One recorded known finding (un-awaited "
+             "routed through the environment (the only place ownership moves and cleanup is triggered); effect completions are constructed only behind the ownership registration and resource ids come from a monotone counter. One recorded known finding (un-awaited "
              "termination never reaches cleanup). Event orderings across workers are not decided.",
         design="§3 C14", technique="static analysis: MIR path exploration with forced outcomes / edge deletion, dominance, provenance slices, who-may-call censuses, HIR pattern matrices"),
     "C15": dict(
